@@ -17,6 +17,8 @@ type omap struct {
 	index   map[int][]int // hash -> entry indices
 	entries []oentry
 	n       int
+	i       *interpreter
+	symKeys bool // some key contains symbolic scalars: lookups scan and fork on equality
 }
 
 func makeMap(kt types.Type, reserve int64) value {
@@ -25,6 +27,28 @@ func makeMap(kt types.Type, reserve int64) value {
 
 func (m *omap) find(k value) int {
 	if m == nil {
+		return -1
+	}
+	if m.symKeys || containsSym(k) {
+		if m.i == nil {
+			panic(unsupported{"symbolic map key in a map created outside the interpreter"})
+		}
+		for idx := range m.entries {
+			e := &m.entries[idx]
+			if e.deleted {
+				continue
+			}
+			switch eq := m.i.symEquals(m.keyType, e.k, k).(type) {
+			case bool:
+				if eq {
+					return idx
+				}
+			case sym:
+				if m.i.px.branch(eq, "map key equality") {
+					return idx
+				}
+			}
+		}
 		return -1
 	}
 	h := hash(m.keyType, m.keyType, k)
@@ -49,8 +73,12 @@ func (m *omap) insert(k, v value) {
 		m.entries[idx].v = copyVal(v)
 		return
 	}
-	h := hash(m.keyType, m.keyType, k)
-	m.index[h] = append(m.index[h], len(m.entries))
+	if containsSym(k) {
+		m.symKeys = true
+	} else {
+		h := hash(m.keyType, m.keyType, k)
+		m.index[h] = append(m.index[h], len(m.entries))
+	}
 	m.entries = append(m.entries, oentry{k: copyVal(k), v: copyVal(v)})
 	m.n++
 }
